@@ -135,6 +135,53 @@ func propC08(c *Ctx) {
 			ng++
 			c.Bad(rg, fmt.Sprintf("%s | store to global %s", fnName(fn), g.Name()), l.Pos(ins.Pos()), "run-time code stores to package-level variable "+g.Name()+": shared by every VM in the process without synchronisation")
 		})
+		// a package-level map or slice installed as part of a run's state (stored
+		// into a VM / frame / object field): every VM then mutates one shared container
+		eachInstr(fn, func(ins ssa.Instruction) {
+			ld, ok := ins.(*ssa.UnOp)
+			if !ok || ld.Op != token.MUL {
+				return
+			}
+			g, ok := ld.X.(*ssa.Global)
+			if !ok || g.Pkg == nil || !strings.HasPrefix(g.Pkg.Pkg.Path(), modPath) {
+				return
+			}
+			switch ld.Type().Underlying().(type) {
+			case *types.Map, *types.Slice:
+			default:
+				return
+			}
+			escapes := ""
+			seen := map[ssa.Value]bool{}
+			var walk func(v ssa.Value, d int)
+			walk = func(v ssa.Value, d int) {
+				if seen[v] || d > 5 || v.Referrers() == nil || escapes != "" {
+					return
+				}
+				seen[v] = true
+				for _, r := range *v.Referrers() {
+					switch x := r.(type) {
+					case *ssa.ChangeType:
+						walk(x, d+1)
+					case *ssa.MakeInterface:
+						walk(x, d+1)
+					case *ssa.Phi:
+						walk(x, d+1)
+					case *ssa.Store:
+						if x.Val == v {
+							if _, local := x.Addr.(*ssa.Alloc); !local {
+								escapes = l.Pos(x.Pos())
+							}
+						}
+					}
+				}
+			}
+			walk(ld, 0)
+			if escapes != "" {
+				ng++
+				c.Bad(rg, fmt.Sprintf("%s | package-level container %s installed in run state", fnName(fn), g.Name()), escapes, "run-time code stores the package-level "+tstr(ld.Type())+" "+g.Name()+" itself into the state of a run: every VM in the process that takes this path reads and writes one shared container (a default globals map shared by all runs without globals)")
+			}
+		})
 		// the address of a package-level variable handed to a repository
 		// function that writes through that parameter (a shared scratch value)
 		eachInstr(fn, func(ins ssa.Instruction) {
@@ -495,6 +542,8 @@ func propC12(c *Ctx) {
 	ruleDeepCopy(c, rdc)
 	rfp := c.Rule("fork-parent", "every compiler fork records the forking compiler as its parent on every path (the cyclic-import check walks this chain)", 2)
 	ruleForkParent(c, rfp)
+	rrbb := c.Rule("rollback-boundary", "rolling the module store back removes exactly the entries whose index is >= the restored count: no module of a failed compilation stays registered without its constant", 1)
+	ruleRollbackBoundary(c, rrbb)
 	rfs := c.Rule("fork-same-file", "a compiler forked for a function literal inherits the forking compiler's module path and module map unchanged: an import inside a function resolves as at the top level of the same file", 1)
 	ruleForkSameFile(c, rfs)
 	rod := c.Rule("operand-decode", "every multi-byte operand the VM reads (module indexes among them) is assembled big-endian from adjacent bytes, as the compiler encodes it", 10)
@@ -655,6 +704,8 @@ func propC10(c *Ctx) {
 	defer func() {
 		rccf := c.Rule("const-cache-float", "the constant cache a later fragment's compiler is rebuilt with (from the session's constants) never maps 0.0 to a stored -0.0: a fragment's 0.0 literal is the same constant it would be in one script", 1)
 		ruleConstCacheFloat(c, rccf)
+		rrb := c.Rule("rollback-boundary", "rolling the session's module store back after a failed fragment removes exactly the entries whose index is >= the restored count: the next fragment sees the store a single script would", 1)
+		ruleRollbackBoundary(c, rrb)
 		rdk := c.Rule("decl-kind-agree", "the compiler and the optimizer dispatch on the same set of declaration kinds: a `global` declaration in the same fragment as its use hides the builtin from the optimizer exactly as the session's symbol table does for a later fragment", 1)
 		ruleDeclKindAgree(c, rdk)
 		rcb := c.Rule("counter-balance", "a function that increments a nesting counter of the compiler (try depth, loop depth) decrements it again on every path to a successful return: a script compiled in one piece sees the same depths as its fragments compiled one by one", 2)
